@@ -39,8 +39,12 @@ BOUNDS = {'quick': 'as in the rule', 'thorough': 'netgen sizes up to 16 / 6x6 / 
 
 
 class Scratch:
+    """a scratch directory whose path is THE SAME for every case of a process (one shard = one process): successive
+    documents are written to and read from the same file names, as a flow that overwrites its output files does"""
+
     def __enter__(self):
-        self.d = tempfile.mkdtemp(prefix='c19.')
+        self.d = os.path.join(tempfile.gettempdir(), 'c19.reused')
+        os.makedirs(self.d, exist_ok=True)
         return self
 
     def path(self, name):
